@@ -176,10 +176,10 @@ def run(tier, seed):
                 n_strlen += 1
     rcorp = rust_flags.Corpus()
     for t in rust_reads.opcode_tables(rcorp):
-        ops = t["wowm"] if tier != "quick" else t["wowm"][::3]
+        ops = t["wowm"]
         for o in ops:
-            for _ in range(2 if tier == "quick" else 8):
-                body = rng.bytes(rng.below(40))
+            for k_ in range(3 if tier == "quick" else 8):
+                body = rng.bytes(rng.below(40) if k_ else 8 + rng.below(32))       # the first frame always has a body past the smallest size guards
                 fr = frame(t["exp"], t["dir"], o, body)
                 hreq.append(f"dec {t['exp']} {t['dir']} {fr.hex()}")
                 hmeta.append((t["exp"], t["dir"], fr, f"opcode:{o:#x}", "random-frame"))
